@@ -1421,6 +1421,36 @@ def corpus() -> list[tuple[str, dict, list]]:
     # ill-typed on purpose: the return check must see through a conditional expression
     body = [('ret', ('if', ('bin', '<', V(1), ('I', 3)), ('S', 'a'), V(1)))]
     out.append(("reject-return-conditional", {'classes': [], 'funcs': [(1, {'params': [(1, INT)], 'ret': INT, 'body': body})]}, []))
+    # directed try / for shapes inside the extended MiniPy (they also go through the model)
+    exc0 = {'id': 0, 'bases': [], 'mro': [0], 'fields': [], 'methods': [], 'exc': True}
+    e1 = {'id': 1, 'bases': [0], 'mro': [1, 0], 'fields': [], 'methods': [], 'exc': True}
+    e2 = {'id': 2, 'bases': [0], 'mro': [2, 0], 'fields': [(1, INT)], 'methods': [], 'exc': True}
+    inner = ('try', [('as', 2, ('N',)), ('sif', ('bin', '=', V(1), ('I', 1)), [('raise', 1, [])], []), ('as', 2, ('I', 2)),
+                     ('sif', ('bin', '=', V(1), ('I', 2)), [('raise', 2, [('I', 5)])], [])],
+             2, 3, [('ex', ('rev', V(2))), ('as', 2, ('attr', V(3), 1))], [('ex', ('rev', V(2)))])
+    body = [('de', 2, OI, ('N',)), ('as', 2, ('I', 1)),
+            ('try', [inner], 1, None, [('ex', ('rev', V(2))), ('ret', ('if', ('isn', V(2)), ('I', -1), ('bin', '+', V(2), ('I', 1))))], []),
+            ('ex', ('rev', V(2))), ('ret', ('I', 0))]
+    out.append(("nested-try", {'classes': [exc0, e1, e2], 'funcs': [(1, {'params': [(1, INT)], 'ret': INT, 'body': body})]},
+                [(1, [['i', k]]) for k in range(4)]))
+    body = [('de', 2, OI, ('N',)), ('as', 2, ('I', 1)),
+            ('fin', [('try', [('as', 2, ('N',)), ('sif', ('bin', '<', V(1), ('I', 2)), [('raise', 1, [])], []), ('as', 2, ('I', 7))],
+                      2, None, [('ex', ('rev', V(2)))], [])],
+             [('ex', ('rev', V(2))), ('de', 4, OI, V(2))]),
+            ('ex', ('rev', V(2))), ('ret', ('I', 0))]
+    out.append(("try-finally", {'classes': [exc0, e1, e2], 'funcs': [(1, {'params': [(1, INT)], 'ret': INT, 'body': body})]},
+                [(1, [['i', k]]) for k in range(3)]))
+    body = [('de', 2, ('U', [INT, STR, NONE]), ('N',)), ('as', 2, ('N',)),
+            ('for', 3, True, V(1), [('sif', ('bin', '=', V(3), ('I', 2)), [('as', 2, ('S', 'x')), ('brk',)], []),
+                                    ('sif', ('bin', '=', V(3), ('I', 0)), [('cont',)], []), ('as', 2, V(3)), ('ex', ('rev', V(2)))],
+             [('ex', ('rev', V(2))), ('as', 2, ('I', 9))]),
+            ('ex', ('rev', V(2))),
+            ('de', 4, INT, ('I', 0)),
+            ('wh', ('bin', '<', V(4), V(1)), [('as', 4, ('bin', '+', V(4), ('I', 1))), ('sif', ('isi', V(2), ('ks',)), [('brk',)], []), ('as', 2, ('S', 'w'))],
+             [('as', 2, ('N',))]),
+            ('ex', ('rev', V(2))), ('ret', ('I', 0))]
+    out.append(("for-while-else-break", {'classes': [], 'funcs': [(1, {'params': [(1, INT)], 'ret': INT, 'body': body})]},
+                [(1, [['i', k]]) for k in range(5)]))
     body = [('sif', ('B', True), [('ret', ('I', 1))], [('ret', ('S', 'never checked'))])]
     out.append(("unreachable-else", {'classes': [], 'funcs': [(1, {'params': [(1, INT)], 'ret': INT, 'body': body})]},
                 [(1, [['i', 0]])]))
@@ -2389,7 +2419,7 @@ def run(ctx: vlib.Ctx) -> None:
         if exe is None:
             ctx.broke("C", "extraction", "extracted model does not build")
         else:
-            progs = corpus() + gen_programs(ctx, ctx.n(20, 300), "g")
+            progs = corpus() + gen_programs(ctx, ctx.n(14, 300), "g")
             ctx.log(f"MiniPy: {len(progs)} programs (corpus + generated + perturbed)")
             for k in range(0, len(progs), 240):
                 sub = os.path.join(tmp, f"b{k}")
@@ -2405,7 +2435,7 @@ def run(ctx: vlib.Ctx) -> None:
             ctx.sample({"program": progs[3][0], "source_head": src[:400]})
         wsub = os.path.join(tmp, "wide")
         os.makedirs(wsub)
-        wide_stage(ctx, wsub, ctx.n(30, 400), ctx.n(30, 300))
+        wide_stage(ctx, wsub, ctx.n(20, 400), ctx.n(20, 300))
         ctx.log("wide stats: " + json.dumps(ctx.cov.get("wide")))
     finally:
         shutil.rmtree(tmp, ignore_errors=True)
